@@ -14,7 +14,7 @@ from hypothesis import strategies as st
 
 from .world import enc
 
-ENT_CLASSES = ["Ent", "Ent", "Ent", "EntSub", "EntPlain", "EntV", "EntV"]
+ENT_CLASSES = ["Ent", "Ent", "Ent", "EntSub", "EntSubSub", "EntPlain", "EntV", "EntV"]
 
 PROFILES = {
     "clean": dict(ints=[1, 2, 3], strs=["x", "xy", "y"], tag_len=(1, 3), kids_len=(1, 3),
@@ -98,7 +98,7 @@ class Ctx:
     def __init__(self, cfg: Cfg, recs: List[dict], nvars: int):
         self.cfg = cfg
         self.P = PROFILES[cfg.profile]
-        ents = [r for r in recs if r.get("cls", "Ent") in ("Ent", "EntSub", "EntPlain", "EntV")]
+        ents = [r for r in recs if r.get("cls", "Ent") in ("Ent", "EntSub", "EntSubSub", "EntPlain", "EntV")]
         self.min_tags = min((len(r["tags"]) for r in ents), default=0)
         self.min_kids = min((len(r["kids"]) for r in ents), default=0)
         self.nvars = nvars
